@@ -85,13 +85,16 @@ inline EP mutate(pbt::Ctx& c, const EP& original, const Gamma& G, std::string& o
         n->idx[k] = std::max(1, n->idx[k] + (c.coin() ? 1 : -1)); if (c.chance(1, 5)) n->idx.push_back(1);
         opName = "index-off-by-one"; return root->kids[0];
       }
-      case 5: {  // rename one occurrence of a local (use or declaration)
+      case 5: {  // rename one occurrence of a local (use or declaration): to a name from a pool, or - more often - to the
+                 // name of another local of the same tree (in scope with another type, or out of scope)
         std::vector<Expr*> ls; for (auto* n : nodes) if (n->id == TID::ID_LOCAL) ls.push_back(n);
         if (ls.empty()) break;
         Expr* n = c.oneof(ls);
+        std::vector<std::string> others; for (auto* o : ls) if (o->name != n->name && std::find(others.begin(), others.end(), o->name) == others.end()) others.push_back(o->name);
         static const std::vector<std::string> pool = {"a", "b", "x", "y", "ab", "q9"};
-        std::string nn = c.oneof(pool); if (nn == n->name) nn += "1";
-        n->name = nn; opName = "rename-local"; return root->kids[0];
+        std::string nn = (!others.empty() && c.chance(3, 4)) ? c.oneof(others) : c.oneof(pool); if (nn == n->name) nn += "1";
+        opName = others.empty() ? "rename-local" : "rename-local-to-sibling";
+        n->name = nn; return root->kids[0];
       }
       case 6: {  // change the arity of an enumeration / tuple / product / call / pattern
         std::vector<Expr*> ar; for (auto* n : nodes) if (n->id == TID::NT_TUPLE || n->id == TID::NT_ENUMERATION || n->id == TID::DECART || n->id == TID::NT_TUPLE_DECL || n->id == TID::NT_FUNC_CALL) ar.push_back(n);
@@ -129,6 +132,31 @@ inline EP mutate(pbt::Ctx& c, const EP& original, const Gamma& G, std::string& o
   }
   opName = "";
   return root->kids[0];
+}
+
+
+// swap the names of local-variable USES among the locals of the tree (declarations stay): produces expressions in which a
+// variable is used at the type of another one - ill-typed unless the two have compatible types
+inline EP confuseLocals(pbt::Ctx& c, const EP& original, int times, int* applied) {
+  EP root = clone(original);
+  std::vector<Expr*> uses; std::vector<std::string> names;
+  std::function<void(Expr&, Expr*, size_t)> walk = [&](Expr& e, Expr* parent, size_t idx) {
+    if (e.id == TID::ID_LOCAL) {
+      const bool decl = parent && (isDeclPosition(*parent, idx) || parent->id == TID::NT_TUPLE_DECL || parent->id == TID::NT_ENUM_DECL);
+      if (!decl) uses.push_back(&e);
+      if (std::find(names.begin(), names.end(), e.name) == names.end()) names.push_back(e.name);
+    }
+    for (size_t i = 0; i < e.kids.size(); ++i) walk(*e.kids[i], &e, i);
+  };
+  walk(*root, nullptr, 0);
+  *applied = 0;
+  if (uses.empty() || names.size() < 2) return root;
+  for (int i = 0; i < times; ++i) {
+    Expr* u = c.oneof(uses);
+    const std::string nn = c.oneof(names);
+    if (nn != u->name) { u->name = nn; ++*applied; }
+  }
+  return root;
 }
 
 }  // namespace rs
